@@ -44,14 +44,14 @@ RULE = ("histories of 1-40 operations on four Bitset<N> registers, N in {1,2,3,1
         "&,|,^ by reference and assigning / ! / == / clone / Display / Debug; indices concentrated on 0, 1, 62, 63, 64, 65, "
         "127, 128, 64N-1 and 64N, 64N+63, 2^63 (out of range: panic); non-trivial = at least one mutation touching a word "
         "boundary bit or a binary operator, followed by an observation of that register")
-TRUSTED = ["executor harness/crates/c12 (drives rlib_bitset::Bitset<N> for N = 1, 2, 3, 10, prints every observable)",
+TRUSTED = ["executor harness/crates/c12 (drives rlib_bitset::Bitset<N> for N = 1, 2, 3, 10, 17, 20, prints every observable)",
            "checks/c12.py (history generator, Coq term printer)"]
 ASSUMPTIONS = ["[u64; N] modelled as a list of N words below 2^64, usize indices as unbounded N (all sampled indices are "
                "below 2^64; idx + 64 in the iterator cannot overflow since idx < 64*N)",
                "an out-of-bounds index panics before any write: the register is unchanged afterwards",
                "loops of the iterator are modelled with binary fuel 2^130; the theorems prove the fuel is never exhausted"]
 
-NS = [1, 2, 3, 10]
+NS = [1, 2, 3, 10, 17, 20]
 ARITY = {"new": 1, "from": 2, "set": 2, "rem": 2, "flip": 2, "test": 2, "clear": 1, "count": 1, "iter": 1,
          "and": 3, "or": 3, "xor": 3, "anda": 2, "ora": 2, "xora": 2, "not": 2, "eq": 2, "clone": 2, "disp": 1, "dbg": 1}
 M64 = (1 << 64) - 1
@@ -262,8 +262,8 @@ def generate(rng, tier):
             cases.append({"n": n, "ops": h})
     total = 2200 if tier == "quick" else 30000
     for _ in range(total):
-        n = rng.choice([1, 1, 2, 2, 2, 3, 3, 10])
-        maxlen = 40 if n < 10 else 25
+        n = rng.choice([1, 1, 1, 2, 2, 2, 2, 3, 3, 3, 10, 10, 17, 20] if tier == "quick" else [1, 1, 2, 2, 2, 3, 3, 10, 17, 20])
+        maxlen = 40 if n < 10 else (25 if n == 10 else 10)
         if rng.chance(1, 4):
             maxlen = 8
         cases.append({"n": n, "ops": gen_history(rng, n, maxlen)})
@@ -301,7 +301,7 @@ MANIFEST = {
             "then None forever (c12_iter_bits, c12_next), == iff same set (c12_eq), Display/Debug = characteristic string "
             "(c12_display), and every operation history shows the same observations as a naive list-of-booleans set "
             "(c12_history, hence model_check -> spec_check). Tied to the code on every run: generated histories on "
-            "Bitset<1>,<2>,<3>,<10> are executed by the real crate and Coq proves model = implementation and "
+            "Bitset<1>,<2>,<3>,<10>,<17>,<20> are executed by the real crate and Coq proves model = implementation and "
             "implementation = naive set on every case.",
     "level_note": "Trusted: Coq kernel + vm_compute; the Rust executor and the Python case printer (its two compact notations "
                   "for observed strings/lists are proved to denote the rendering/member list: c12_enc_*); arrays are lists, "
